@@ -93,6 +93,28 @@ def twice_form(doc):
     return flat, multi, {"shared/get.jst": GET_FILE}
 
 
+def twin_text(n, w):
+    """one resource file made from a template: for n = 'a' / 'b' the files have the same layout byte for byte, only the
+    names differ, so every body and every text sits at the same offsets in both"""
+    return ('GET /tw%(n)s // note %(n)s\n  Description\n    text of %(w)s\n  Query "q%(n)s=1"\n  {\n    "q%(n)s": 1\n  }\n  200\n    Headers\n    {\n      "h%(n)s": "v"\n    }\n    Body\n    {\n      "b%(n)s": 1\n    }\n'
+            'URL /rtw%(n)s\n  Protocol json-rpc-2.0\n  Method m%(n)s\n    Description\n    (\n      rpc text %(w)s\n    )\n    Params\n    {\n      "p%(n)s": 1\n    }\n    Result\n    {\n      "r%(n)s": 1\n    }\n'
+            'TYPE @tw%(n)s\n{\n  "k%(n)s": 1\n}\nENUM @ew%(n)s\n[\n  "%(n)s"\n]\nTAG @gw%(n)s\n  Description\n    tag text %(w)s\nURL /ptw%(n)s/{i%(n)s}\n  Path\n  {\n    "i%(n)s": 1\n  }\n  GET\n    200 regex\n    /%(n)s+/\n') % {"n": n, "w": w}
+
+
+def twin_projects():
+    """-> list of (name, flattened text, main text, files)"""
+    res = []
+    for nm, (wa, wb) in (("twins", ("cats", "dogs")), ("twins_three", ("hens", "pigs"))):
+        ta, tb = twin_text("a", wa), twin_text("b", wb)
+        files = {"res/a.jst": ta, "res/b.jst": tb}
+        main = "JSIGHT 0.3\nINCLUDE res/a.jst\nINCLUDE res/b.jst\n"
+        if nm == "twins_three":
+            files["res/c.jst"] = twin_text("c", "owls")
+            main += "INCLUDE res/c.jst\n"
+        res.append((nm, "JSIGHT 0.3\n" + "".join(files[k] for k in sorted(files)), main, files))
+    return res
+
+
 def reject_cases(doc):
     """-> list of (name, main blocks, files, dirs, noread)"""
     t = "TYPE @zi any\n"
@@ -164,6 +186,12 @@ def main(tier):
                 cases.append({"id": cid, "files": ff, "root": "main.jst", "dirs": dirs, "noread": noread,
                               "outside": ["outside/canary.jst"]})
                 rej[cid] = (nm, m, main_text, files)
+    for nm, flat_text, main_text, files in twin_projects():
+        cases.append(rel.case("twf_" + nm, flat_text))
+        ff = {"main.jst": b64(main_text)}
+        ff.update({k: b64(v) for k, v in files.items()})
+        cases.append({"id": "twm_" + nm, "files": ff, "root": "main.jst"})
+        meta["twm_" + nm] = ("twf_" + nm, nm, {"doc": []}, main_text, files)
     obs = harness("run", cases)
     for cid, (bid, nm, m, main_text, files) in meta.items():
         a, b = obs[bid], obs[cid]
